@@ -1691,6 +1691,152 @@ fn application_family(run: &Run) {
 }
 
 // ---------------------------------------------------------------------------
+// (b4) tents at builder level: every combination of peaks and intermediates
+// ---------------------------------------------------------------------------
+
+/// per-axis tent options: peak in {-1, -0.5, 0, 0.5, 1} x intermediates {None, explicit proper
+/// sub-region, explicit equal to the implied region}
+fn tent_axis_options() -> Vec<(i16, Option<(i16, i16)>)> {
+    let mut v = vec![];
+    for p in [-ONE, -ONE / 2, 0, ONE / 2, ONE] {
+        v.push((p, None));
+        // explicit, equal to what None implies
+        v.push((p, Some((p.min(0), p.max(0)))));
+        if p != 0 {
+            // explicit proper sub-region around the peak (same sign, start <= peak <= end)
+            let (lo, hi) = if p > 0 { (p / 2, (p + (ONE - p) / 2).min(ONE)) } else { ((p - (ONE + p) / 2).max(-ONE), p / 2) };
+            v.push((p, Some((lo, hi))));
+        }
+    }
+    v
+}
+
+/// One region through the real builder; read back; scalars on the quarter-step grid against the exact
+/// tent model of the INPUT tents.
+fn check_tent(run: &Run, region: &Region, l: &mut Local) {
+    let axes = region.len();
+    let coords = vec![(0i64, 0i64), (50, 0), (20, 40)];
+    let g = GlyphSpec {
+        coords: coords.clone(),
+        ends: vec![2],
+        tol2: 0,
+        tuples: vec![TupleSpec {
+            region: region.clone(),
+            deltas: (0..7).map(|i| (10 + i as i16, -3 * i as i16 + 1, true)).collect(),
+        }],
+    };
+    let gs = [g];
+    let case = || json!({"kind":"tent","region":region_json(region)});
+    // regions + deltas read back as written (uses the input model: None = (min(peak,0), max(peak,0)))
+    let Some(bytes) = check_gvar(run, "b4", &gs, axes as u16, l, &case) else {
+        return;
+    };
+    let want_eff = effective(region);
+    let r = guard(|| {
+        let gvar = rgvar::Gvar::read(FontData::new(&bytes)).ok()?;
+        let data = gvar.glyph_variation_data(GlyphId::new(0)).ok()??;
+        let tuple = data.tuples().next()?;
+        // quarter-step grid
+        let steps: Vec<i16> = (-4..=4).map(|k| (k * (ONE as i32 / 4)) as i16).collect();
+        let mut loc = vec![0usize; axes];
+        let mut bad: Option<String> = None;
+        let mut nonzero = 0u64;
+        loop {
+            let l16: Vec<i16> = loc.iter().map(|i| steps[*i]).collect();
+            let c: Vec<F2Dot14> = l16.iter().map(|b| F2Dot14::from_bits(*b)).collect();
+            let exact = exact_scalar(&want_eff, region, &l16);
+            if exact.n != 0 {
+                nonzero += 1;
+            }
+            let fixed = tuple.compute_scalar(&c).map(|f| f.to_bits() as f64 / 65536.0).unwrap_or(0.0);
+            let float = tuple.compute_scalar_f32(&c).unwrap_or(0.0) as f64;
+            let tol = axes as f64 / 65536.0;
+            if ((fixed - exact.to_f64()).abs() > tol || (float - exact.to_f64()).abs() > 1e-5) && bad.is_none() {
+                bad = Some(format!("location {l16:?}: compute_scalar {fixed}, compute_scalar_f32 {float}, exact {}", exact.to_f64()));
+            }
+            // the tuple must be active (Some) exactly when the scalar is non-zero (this is what
+            // active_tuples_at filters on)
+            let active = usize::from(tuple.compute_scalar(&c).is_some());
+            if (active == 1) != (exact.n != 0) && bad.is_none() {
+                // a scalar that rounds to zero in 16.16 may legitimately drop out
+                if !(exact.n != 0 && exact.to_f64().abs() < 1.0 / 65536.0) {
+                    bad = Some(format!("location {l16:?}: tuple active = {active}, exact scalar {}", exact.to_f64()));
+                }
+            }
+            if !next_digits(&mut loc, steps.len()) {
+                break;
+            }
+        }
+        Some((bad, nonzero))
+    });
+    l.trans += 3 * 9u64.pow(axes as u32);
+    match r {
+        Ok(Some((None, nonzero))) => {
+            let mut h = Fnv::new();
+            h.str("tent");
+            h.u64(nonzero);
+            for a in &want_eff {
+                h.i64(a.0 as i64);
+                h.i64(a.1 as i64);
+                h.i64(a.2 as i64);
+            }
+            l.all.insert(h.finish());
+            if nonzero > 0 {
+                l.nontrivial.insert(h.finish());
+            }
+        }
+        Ok(Some((Some(detail), _))) => {
+            let neg_none = region.iter().any(|a| a.0 < 0 && a.1.is_none());
+            let mixed = region.iter().any(|a| a.1.is_some()) && region.iter().any(|a| a.1.is_none() && a.0 != 0);
+            run.violation(
+                &format!(
+                    "tuple scalar of a compiled tent differs from the tent given to the builder ({} axes{}{})",
+                    axes,
+                    if mixed { "; explicit and implied intermediates mixed" } else { "" },
+                    if neg_none { "; negative peak with implied intermediates" } else { "" }
+                ),
+                &format!("{}: {detail}", region_json(region)),
+                case(),
+            );
+        }
+        Ok(None) => run.violation("b4: compiled tent cannot be read back", &format!("{}", region_json(region)), case()),
+        Err(p) => run.violation(&format!("tuple scalar panic: {} in {}", p.kind(), p.site()), &p.message, case()),
+    }
+}
+
+fn tent_family(run: &Run) {
+    let opts = tent_axis_options();
+    run.bound("b4.per_axis_options", json!(opts.len()));
+    run.bound("b4.peaks", json!([-1.0, -0.5, 0.0, 0.5, 1.0]));
+    run.bound("b4.intermediates", json!(["None (implied)", "explicit, equal to the implied region", "explicit proper sub-region (not for peak 0)"]));
+    run.bound("b4.axes", json!([2, 3]));
+    run.bound("b4.location_grid", json!("every axis in -1..=1 step 1/4 (9^axes locations)"));
+    for axes in [2usize, 3] {
+        let total = opts.len().pow(axes as u32);
+        let locals: Vec<Local> = (0..total)
+            .into_par_iter()
+            .map(|t| {
+                let mut l = Local::new();
+                let mut k = t;
+                let region: Region = (0..axes)
+                    .map(|_| {
+                        let o = opts[k % opts.len()];
+                        k /= opts.len();
+                        o
+                    })
+                    .collect();
+                check_tent(run, &region, &mut l);
+                l
+            })
+            .collect();
+        for l in locals {
+            l.merge(run, &format!("b4.axes{axes}"));
+        }
+    }
+    run.sample(json!({"kind":"tent","region":region_json(&vec![(ONE / 2, Some((ONE / 4, 3 * (ONE / 4)))), (-ONE, None)])}));
+}
+
+// ---------------------------------------------------------------------------
 // (c3) sparse tuples whose x deltas contain zero runs, drawn
 // ---------------------------------------------------------------------------
 
@@ -2520,6 +2666,7 @@ fn body(run: &Run, replay: Option<&Value>) {
                 let c = || case.clone();
                 check_gvar(run, case["family"].as_str().unwrap_or("b"), &gs, axes, &mut l, &c);
             }
+            Some("tent") => check_tent(run, &region_from_json(&case["region"]), &mut l),
             Some("offsets") => {
                 let gs = offsets_replay_glyphs(case["last_glyph_points"].as_u64().unwrap() as usize);
                 let c = || case.clone();
@@ -2566,6 +2713,7 @@ fn body(run: &Run, replay: Option<&Value>) {
     pipeline_family(run);
     structured_family(run);
     offsets_family(run);
+    tent_family(run);
     application_family(run);
     sparse_run_family(run);
     composite_family(run);
